@@ -201,6 +201,11 @@ func simultaneousFirstOpens(c *ctx) string {
 			wg.Add(1)
 			go func(j int) {
 				defer wg.Done()
+				defer func() {
+					if p := recover(); p != nil {
+						errs <- fmt.Sprintf("PANIC: %v", p)
+					}
+				}()
 				atomic.AddInt32(&ready, 1)
 				for atomic.LoadInt32(&gate) == 0 {
 				}
